@@ -61,7 +61,7 @@ class StreamingDetector(ABC):
                     raise ValueError(
                         "Columns of new data must match with columns of prior data."
                     )
-            ary = X.values
+            ary = np.array(X.values)  # a copy: never keep a view of caller data
         else:
             ary = copy.copy(X)
             ary = np.array(ary)
@@ -241,7 +241,7 @@ class BatchDetector(ABC):
                     raise ValueError(
                         "Columns of new data must match with columns of prior data."
                     )
-            ary = X.values
+            ary = np.array(X.values)  # a copy: never keep a view of caller data
         else:
             ary = copy.copy(X)
             ary = np.array(ary)
